@@ -148,7 +148,8 @@ class Analysis:
         ws = os.path.join(out, "ws")
         shutil.copytree(src, ws, ignore=shutil.ignore_patterns("target", "Cargo.lock"))
         ct = os.path.join(ws, "Cargo.toml")
-        open(ct, "w").write(open(ct).read().replace('"/repo/', '"%s/' % REPO))
+        text = open(ct).read().replace('"/repo/', '"%s/' % REPO)
+        open(ct, "w").write(text)
         shutil.copy(os.path.join(REPO, "Cargo.lock"), os.path.join(ws, "Cargo.lock"))
         return ws
 
@@ -156,7 +157,7 @@ class Analysis:
         def run(out):
             ws = self._ws_copy("corpus", out)
             self._extract(ws, os.path.join(out, "facts"), ["--all-targets"])
-        return os.path.join(self._step("facts-corpus-" + sub_hash("corpus"), run), "facts")
+        return os.path.join(self._step("corpus-ws-" + sub_hash("corpus"), run), "facts")
 
     def corpus(self):
         if "corpus" not in self._programs:
